@@ -344,8 +344,10 @@ package data
 //@   ensures @C03 len(bytes) >= 2 && 0 < MapSize(bytes) && MapSize(bytes) < len(bytes)-2 ==> len(err) >= 1 && IsBeyondWarning(err[0])
 //@   ensures @C03 len(err) >= 2 ==> !IsBeyondWarning(err[1])
 //@   ensures @C03 len(err) >= 3 ==> !IsBeyondWarning(err[2])
+//@   ensures @C03 len(err) >= 4 ==> !IsBeyondWarning(err[3])
+//@   ensures (len(err) >= 1 ==> err[0] != nil) && (len(err) >= 2 ==> err[1] != nil) && (len(err) >= 3 ==> err[2] != nil) && (len(err) >= 4 ==> err[3] != nil)
 //@   ensures @C01 @C11 [by C01_ReadMapping] len(bytes) >= 2 && MapClean(err) ==> seqeq((&mapping).Data(), bytes[:2+MapSize(bytes)])
-//@   loop parseKeyValuePairs 0: bounded 2
+//@   loop parseKeyValuePairs 0: bounded 1
 //@   loop serializeMappingPairs 0: concrete 16
 //@   modifies nothing
 
